@@ -251,6 +251,9 @@ fn judge_text(c: &Case, text: String, budget: usize, l: &mut Local) {
         l.nontrivial(&(&text, &c.defines));
     }
     let exp = expected_json(&o);
+    if std::env::var("C16_DEBUG").map(|d| c.coord.contains(&d)).unwrap_or(false) {
+        eprintln!("DEBUG [{}]\n{}expected {} observed {}", c.coord, text, exp, obs.summary());
+    }
     if !matches!(o.verdict, Verdict::Unspec(_)) {
         l.traces_validated += 1;
     }
